@@ -94,8 +94,12 @@ func NewUnsignedTransaction(outputs []*wire.TxOut, feeRatePerKb btcutil.Amount,
 	fetchInputs InputSource, changeSource *ChangeSource) (*AuthoredTx, error) {
 
 	targetAmount := SumOutputValues(outputs)
+
+	// The initial fee target must not exceed what any single input can
+	// require, otherwise coins that do cover the final fee are turned down.
+	// A P2TR input is the smallest one.
 	estimatedSize := txsizes.EstimateVirtualSize(
-		0, 0, 1, 0, outputs, changeSource.ScriptSize,
+		0, 1, 0, 0, outputs, changeSource.ScriptSize,
 	)
 	targetFee := txrules.FeeForSerializeSize(feeRatePerKb, estimatedSize)
 
